@@ -321,6 +321,7 @@ partial def countNodes (skip : Nat) (E : Env Float) (c : FCtx Float) (n : Node F
 
 structure DState where
   forest : Option (Forest Float) := none
+  inp : Option (ForestIn Float) := none     -- what the forest was built from (the row sample of `sampleDS` is taken from it)
   convs : List (Conv Float) := []      -- fitted by `rawforest`; requests name them with "="
 
 /-- the convertor section of a request: "=" = the convertors fitted by the last `rawforest` (with the given forest's safe values analysed later) -/
@@ -337,7 +338,7 @@ def sConvTok : Conv Float → String
 
 def pOptF (s : String) : Option Float := if s == "n" then none else some (pF s)
 
-def parseForest (hdr : List String) (names : List String) (rows : List (List String)) : Except String (Forest Float) := do
+def parseForest (hdr : List String) (names : List String) (rows : List (List String)) : Except String (ForestIn Float × Forest Float) := do
   let p : P (ForestIn Float) := do
     let _nrows ← nN; let ncols ← nN; let _npid ← nN
     let kind ← pKind
@@ -348,12 +349,14 @@ def parseForest (hdr : List String) (names : List String) (rows : List (List Str
     let pids := rows.map (fun r => (r.drop ncols).map pU)
     return { names := names.map pStr, raw := raw.toArray, pids := pids.toArray,
              ap := ⟨salt, supp, ⟨ol, ou⟩, ⟨tl, tu⟩, nsd⟩, bp := ⟨sing, rg, frac, depth⟩, kind }
-  Forest.init realEnv (p.run' { toks := hdr.toArray })
+  let inp := p.run' { toks := hdr.toArray }
+  let F ← Forest.init realEnv inp
+  return (inp, F)
 
 /-- `rawforest`: the typed table as given to `Synthesizer`; convertors are fitted and the table normalised in the model -/
 def parseRawForest (hdr : List String) (names : List String) (kinds : List String) (rows : List (List String)) :
-    Except String (List (Conv Float) × Forest Float) := do
-  let p : P (Except String (List (Conv Float) × Forest Float)) := do
+    Except String (ForestIn Float × List (Conv Float) × Forest Float) := do
+  let p : P (Except String (ForestIn Float × List (Conv Float) × Forest Float)) := do
     let nrows ← nN; let ncols ← nN; let _npid ← nN
     let kind ← pKind
     let salt := pHex (← nxt); let supp ← pSupp
@@ -368,7 +371,10 @@ def parseRawForest (hdr : List String) (names : List String) (kinds : List Strin
       | "t" => .ts (c.map fun x => if x == "n" then none else some x.toInt!)
       | _ => .str (c.map fun x => if x == "n" then none else some (if x == "-" then "" else pStr x))
     let pids := rows.map (fun r => (r.drop ncols).map pU)
-    return forestOfTable realEnv cols nrows (names.map pStr) pids.toArray ⟨salt, supp, ⟨ol, ou⟩, ⟨tl, tu⟩, nsd⟩ ⟨sing, rg, frac, depth⟩ kind
+    let ap : AnonParams Float := ⟨salt, supp, ⟨ol, ou⟩, ⟨tl, tu⟩, nsd⟩
+    let bp : BucketParams := ⟨sing, rg, frac, depth⟩
+    return (forestOfTable realEnv cols nrows (names.map pStr) pids.toArray ap bp kind).map fun r =>
+      ({ names := names.map pStr, raw := (fitTable realEnv cols nrows).2, pids := pids.toArray, ap, bp, kind }, r)
   p.run' { toks := hdr.toArray }
 
 def toks (line : String) : List String := (line.trimAscii.toString.splitOn " ").filter (· ≠ "")
@@ -385,9 +391,9 @@ partial def loop (h : IO.FS.Stream) (out : IO.FS.Stream) (st : DState) : IO Unit
       for _ in [0:nrows] do
         rows := (toks (← h.getLine)) :: rows
       match parseForest hdr names rows.reverse with
-      | .ok F =>
+      | .ok (inp, F) =>
           out.putStrLn s!"OK {sIvs F.rootSnapped0} | {sIvs F.snapped} | {" ".intercalate (F.nullMaps.map sF)}"
-          loop h out { st with forest := some F }
+          loop h out { st with forest := some F, inp := some inp }
       | .error e => out.putStrLn ("ERR " ++ e); out.putStrLn "END"; loop h out st
   | "rawforest" :: hdr =>
       let nrows := (hdr.headD "0").toNat!
@@ -397,11 +403,11 @@ partial def loop (h : IO.FS.Stream) (out : IO.FS.Stream) (st : DState) : IO Unit
       for _ in [0:nrows] do
         rows := (toks (← h.getLine)) :: rows
       match parseRawForest hdr names kinds rows.reverse with
-      | .ok (convs, F) =>
+      | .ok (inp, convs, F) =>
           out.putStrLn s!"OK {sIvs F.rootSnapped0} | {sIvs F.snapped} | {" ".intercalate (F.nullMaps.map sF)}"
           out.putStrLn ("convs " ++ " ; ".intercalate (convs.map sConvTok))
           out.putStrLn "END"
-          loop h out { st with forest := some F, convs := convs }
+          loop h out { st with forest := some F, convs := convs, inp := some inp }
       | .error e => out.putStrLn ("ERR " ++ e); out.putStrLn "END"; loop h out st
   | "tree" :: comb =>
       match st.forest with
@@ -520,6 +526,42 @@ partial def loop (h : IO.FS.Stream) (out : IO.FS.Stream) (st : DState) : IO Unit
               for r in rows do out.putStrLn (" ".intercalate (r.map sCell))
               out.putStrLn s!"left {left.length}"
           out.putStrLn "END"
+      loop h out st
+  | "sampleDS" :: rest =>
+      -- sampleDS <ncols convs> | <isIntegral bits> | <main|-> maxWeight mergeThresh alpha sampleSize | <main stream> | <picked rows> | <plan stream> | h1 | m1 | …
+      match st.forest, st.inp with
+      | some F, some inp =>
+          let parts := rest.splitOn "|"
+          let convs : List (Conv Float) := getConvs st (parts.getD 0 [])
+          let isInt := (parts.getD 1 []).map (· == "1")
+          let prm := parts.getD 2 []
+          let mainCol : Option Nat := if prm.getD 0 "-" == "-" then none else some (prm.getD 0 "0").toNat!
+          let mainStream := (parts.getD 3 []).map pDraw
+          let picked := (parts.getD 4 []).map String.toNat!
+          let planStream := (parts.getD 5 []).map pDraw
+          let rec pairsDS : List (List String) → List (List Nat × List (Draw Float))
+            | hs :: ms :: more => (hs.map String.toNat!, ms.map pDraw) :: pairsDS more
+            | _ => []
+          let streams := pairsDS (parts.drop 6)
+          match (sampleDefaultSampled realEnv inp F convs isInt mainCol (prm.getD 4 "0").toNat! (pF (prm.getD 1 "0")) (pF (prm.getD 2 "0"))
+              (pF (prm.getD 3 "0")) picked planStream streams).run mainStream with
+          | .error e => out.putStrLn ("ERR " ++ e)
+          | .ok ((cl, (rows, cols)), left) =>
+              let didSample := shouldSample F.names.length inp.raw.size (prm.getD 4 "0").toNat!
+              out.putStrLn s!"sampled {if didSample then 1 else 0}"
+              -- the entropies the plan search and the stitching saw (measured on the sampled forest when there is one)
+              let ent := if didSample then
+                  match Forest.init realEnv (sampleInput inp picked) with
+                  | .ok Fs => entropies realEnv Fs
+                  | .error _ => []
+                else entropies realEnv F
+              out.putStrLn ("entropy " ++ " ".intercalate (ent.map sF))
+              out.putStrLn ("clusters " ++ sClusters cl)
+              out.putStrLn s!"cols {" ".intercalate (cols.map toString)}"
+              for r in rows do out.putStrLn (" ".intercalate (r.map sCell))
+              out.putStrLn s!"left {left.length}"
+          out.putStrLn "END"
+      | _, _ => out.putStrLn "ERR no-forest"; out.putStrLn "END"
       loop h out st
   | "analyze" :: col =>
       match st.forest with
